@@ -75,6 +75,9 @@ def phase_shapes():
     c = {}
     ph = ["a", "b"]
     c["conv-inactive"] = S(N("S", "Source"), N("C", "Converter", "S", phases=["a"]), N("L1", "PLoad", "C"), N("L2", "ILoad", "S"), phases=ph)
+    c["conv-inactive-by-rail"] = S(N("S", "Source", rail="VIN"), N("C", "Converter", "S", phases=["a"], rail="3V3", phase_via_rail=True),
+                                   N("G", "LinReg", "C"), N("L1", "ILoad", "G"), N("L2", "RLoad", "C"), phases=ph)
+    c["src-inactive-by-rail"] = S(N("S", "Source", phases=["b"], rail="BAT", phase_via_rail=True), N("L", "PLoad", "S"), phases=ph)
     c["src-inactive"] = S(N("S", "Source", phases=["b"]), N("W", "PSwitch", "S"), N("L", "RLoad", "W"), phases=ph)
     c["switch-inactive-deep"] = S(N("S", "Source"), N("W", "PSwitch", "S", phases=["b"]), N("C", "Converter", "W"),
                                   N("G", "LinReg", "C"), N("L", "ILoad", "G"), phases=ph)
